@@ -88,6 +88,9 @@ fn parse<'a>(tok: &mut std::slice::Iter<'a, &'a str>, w: &mut Walk) -> Option<No
                 "r" => MultiPartKind::Related,
                 "e" => MultiPartKind::Encrypted { protocol: "application/pgp-encrypted".into() },
                 "s" => MultiPartKind::Signed { protocol: "application/pgp-signature".into(), micalg: "pgp-sha256".into() },
+                // parameter values with capitals: they are case-sensitive and must come out as given
+                "x" => MultiPartKind::Signed { protocol: "application/PKCS7-Signature".into(), micalg: "SHA-256".into() },
+                "y" => MultiPartKind::Encrypted { protocol: "application/PGP-Encrypted".into() },
                 _ => return None,
             };
             let boundary = *tok.next()?;
